@@ -248,7 +248,7 @@ def main(argv=None):
             known_hit.setdefault(k["slug"], [k, 0])[1] += v["count"]
         else:
             reported.append(v)
-    rdir = os.path.join(VERIF, "replays")
+    rdir = os.environ.get("VERIF_REPLAY_DIR") or os.path.join(VERIF, "replays")
     os.makedirs(rdir, exist_ok=True)
     lines = []
     for slug, (k, n) in sorted(known_hit.items()):
